@@ -124,6 +124,8 @@ def oracle(prog, obs, impl):
         for s, x in res['cont'].items():
             if x <= 0 and s in solutes:
                 fails.append((i, f"non-positive amount {float(x)!r} of solute {s}"))
+            if x <= 0 and op['op'] == 'solution' and s == op['solvent']:
+                fails.append((i, f"non-positive amount {float(x)!r} of the solvent"))
         # every stated value, read back
         for k, sid in enumerate(solutes):
             if 'cs' in m:
@@ -209,7 +211,14 @@ def make_cases(chk):
             op = {'out': g.fresh(), 'name': g.name(), 'solutes': solutes, 'mode': m}
             use_container = rng.random() < 0.3
             r = rng.random()
-            if r < 0.2:     # infeasible: a concentration the solvent amount cannot accommodate / a total smaller than the solutes
+            if r < 0.05 and ('cs' in m or 'qs' in m):
+                # exactly on the edge of the feasible set: a solute asked for in no amount (the result must hold positive amounts)
+                if 'cs' in m:
+                    m['cs'][0]['v'] = '0'
+                else:
+                    m['qs'][0]['v'] = '0'
+                op.update(expect='infeasible', why='a named solute in zero amount')
+            elif r < 0.2:     # infeasible: a concentration the solvent amount cannot accommodate / a total smaller than the solutes
                 if 'total' in m and 'qs' in m:
                     m['total']['v'] = gen.dec(float(F(m['total']['v']) * F(1, 1000)), 2)
                     # infeasible only if the solutes alone exceed the new total in ITS unit (an enzyme adds nothing to a total in moles)
